@@ -693,7 +693,7 @@ def _s3(program, res):
                     res.ok("C04-S3", f"{where}: {opt} only controls a warning", nontrivial=False)
                 else:
                     res.fail_at("C04-S3", f, f"{opt}-not-warning", f"{opt} controls `{body_txt[:60]}`", n)
-    res.expect_count("C04-S3", "option reads", n_reads, 20)
+    res.expect_count("C04-S3", "option reads", n_reads, 12)  # 25 on the pinned tree; a refactor that moves the indentation into one helper leaves 19
     # sql_indent must be whitespace-only
     init = program.method("sql_format_options", "SQLFormatOptions", "__init__", inherited=False)
     ok = any(isinstance(a, ast.Assert) and "sql_indent" in unparse(a.test) and ("strip()" in unparse(a.test) or "isspace" in unparse(a.test))
@@ -827,3 +827,8 @@ def run(program, res, tier):
     _s4_union_operands(program, res)
     res.rule("C04-S5", "every step named in WITH form takes its name from the conversion's id source (equal names mean equal steps)")
     _s5_cte_names(program, res)
+    res.rule("C04-S6", "layout (indentation, line joining) is applied per SQL element, never by a rewrite that looks inside the assembled text (C14-S5): a literal holding a "
+                       "line break would otherwise change with sql_indent and the nesting depth")
+    from . import c14
+    from ..report import Only
+    c14.run(program, Only(res, {"C14-S5": "C04-S6"}), tier)
